@@ -127,11 +127,7 @@ func (e *Engine) installIntrinsics() {
 		if n <= 0 {
 			m.end("assume", "Choose(0)")
 		}
-		t := m.newVar("choose", 64)
-		m.nondets[len(m.nondets)-1].Extra = n
-		m.addPC(m.ctx.ULt(t, m.ctx.BV(uint64(n), 64)))
-		v := m.concretize(t, "Choose")
-		return m.ctx.BV(v, 64)
+		return m.ctx.BV(uint64(m.chooseN(n, "Choose")), 64)
 	}
 	in[hp+"vfAssume"] = func(m *machine, _ *frame, _ *ssa.Function, args []value) value {
 		c := args[0].(*Term)
